@@ -185,8 +185,7 @@ CHECKS["C06"] = dict(
          "sender task existed and had not ended. Distinct by case hash.",
     required=["close-overlaps-sender", "untilwrite:true", "untilwrite:false", "closer-stepped-while-sender-at:send.afterRelease",
               "closer-stepped-while-sender-at:send.beforeRelease", "closer-stepped-while-sender-at:send.beforeFlush",
-              "closer-stepped-while-sender-at:send.afterWritev", "queue:1", "queue:2", "queue:>2",
-              "nosleep:close-waited>=3-polls", "nosleep:grace-period-exhausted"],
+              "closer-stepped-while-sender-at:send.afterWritev", "queue:1", "queue:2", "queue:>2"],
     assumptions=_E1_ASSUME + ["stage real-sleep: Close's 100 ms poll sleep is real time, cases that overlap Close with a running sender are budgeted by count",
                                "stage no-sleep (clock-redirected build, see C20): time.Sleep in the root package takes no wall time and is added to a virtual 'slept' total; a bounded-wait Close that slept >= 1 s in total has exhausted the grace period (10 x 100 ms on this tree) and is exempt"],
 )
